@@ -53,10 +53,10 @@ def cellSwap (c : Cell) (t : Tn) : Option (Cell × Tn) :=
   | some out => some (cellPlace { c with p := none } t false, out)
   | none =>
     match c.b.join with
-    | some out => some (cellPlace { c with p := none, b := none } t true, out)
+    | some out => some ({ c with b := some (some t) }, out)
     | none =>
       match c.d with
-      | some out => some (cellPlace { p := none, b := none, d := none } t false, out)
+      | some out => some (cellPlace { c with d := none } t false, out)
       | none => none
 
 theorem place_cell (md : Mod) (n n' : Name) (t : Tn) (wb : Bool) :
@@ -72,27 +72,25 @@ theorem place_kids (md : Mod) (n : Name) (t : Tn) (wb : Bool) : (place md n t wb
 /-- the result of `setTensor` on the cell `n`, and only there -/
 theorem setTensorNative_ok {md md' : Mod} {n : Name} {t out : Tn} (h : setTensorNative md n t = .ok (md', out)) :
     cellSwap (md.cell n) t = some (md'.cell n, out) ∧ (∀ n', n' ≠ n → md'.cell n' = md.cell n') ∧ md'.kids = md.kids := by
-  unfold setTensorNative setTensorWith at h
-  simp only at h
+  unfold setTensorNative at h
   unfold cellSwap
   cases hp : (Dict.get? md.params n).join with
   | some o =>
     simp only [hp] at h
-    injection h with h; injection h with h1 h2; subst h1 h2
-    refine ⟨?_, ?_, ?_⟩
-    · simp only [place_cell, if_true]; simp [Mod.cell, hp, Dict.get?_pop]
-    · intro n' hn; simp only [place_cell, Ne.symm hn, if_false]; simp [Mod.cell, Dict.get?_pop, Ne.symm hn]
-    · simp [place_kids]
+    cases ht : t.isParam <;> simp only [ht, if_true, if_false, Bool.false_eq_true] at h <;>
+      (injection h with h; injection h with h1 h2; subst h1 h2;
+       refine ⟨?_, ?_, rfl⟩
+       · simp [Mod.cell, hp, cellPlace, ht, Dict.get?_set, Dict.get?_pop]
+       · intro n' hn; simp [Mod.cell, Dict.get?_set, Dict.get?_pop, Ne.symm hn])
   | none =>
     simp only [hp] at h
     cases hb : (Dict.get? md.buffers n).join with
     | some o =>
       simp only [hb] at h
       injection h with h; injection h with h1 h2; subst h1 h2
-      refine ⟨?_, ?_, ?_⟩
-      · simp only [place_cell, if_true]; simp [Mod.cell, hp, hb, Dict.get?_pop]
-      · intro n' hn; simp only [place_cell, Ne.symm hn, if_false]; simp [Mod.cell, Dict.get?_pop, Ne.symm hn]
-      · simp [place_kids]
+      refine ⟨?_, ?_, rfl⟩
+      · simp [Mod.cell, hp, hb, Dict.get?_set]
+      · intro n' hn; simp [Mod.cell, Dict.get?_set, Ne.symm hn]
     | none =>
       simp only [hb] at h
       cases hd : Dict.get? md.plain n with
@@ -407,11 +405,10 @@ theorem swap_frame : ∀ (es : List (Name × PTree)) (h : Heap) (memo : Memo) (m
 
 theorem setTensorNative_err {md : Mod} {n : Name} {t : Tn} {e} (h : setTensorNative md n t = .error e) :
     cellSwap (md.cell n) t = none := by
-  unfold setTensorNative setTensorWith at h
-  simp only at h
+  unfold setTensorNative at h
   unfold cellSwap
   cases hp : (Dict.get? md.params n).join with
-  | some o => simp [hp] at h
+  | some o => simp only [hp] at h; split at h <;> cases h
   | none =>
     simp only [hp] at h
     cases hb : (Dict.get? md.buffers n).join with
@@ -1164,7 +1161,7 @@ theorem cellSwap_in_held {c c' : Cell} {t out : Tn} (h : cellSwap c t = some (c'
   split at h
   · injection h with h; injection h with h1 _; subst h1; exact hp _ _
   · split at h
-    · injection h with h; injection h with h1 _; subst h1; exact hp _ _
+    · injection h with h; injection h with h1 _; subst h1; simp [Holds]
     · split at h
       · injection h with h; injection h with h1 _; subst h1; exact hp _ _
       · cases h
